@@ -12,7 +12,7 @@
    and discharge a specification of each body by simplification, so a harmless rewrite of
    the source that the translator still accepts keeps them compiling exactly when the new
    text still satisfies the same specification. *)
-From AwVerif Require Import Base.Prelude Model.Group Model.GroupPy Model.GroupPy2 Gen.GenGroup2 Proofs.GroupMerge.
+From AwVerif Require Import Base.Prelude Model.Group Model.GroupPy Model.GroupPy2 Gen.GenGroup2 Proofs.GroupMerge Proofs.GroupChunk.
 From Coq Require Import ZifyBool.
 
 (* ------------------------------------------------------------------ loops *)
@@ -374,6 +374,35 @@ Proof.
   rewrite Hloop. reflexivity.
 Qed.
 Print Assumptions bridge_chunk_events_by_key.
+
+(* ================================================================== consequences for the source text *)
+
+(* What Props/C16.v proves about the model therefore holds of the functions as they are
+   written in /repo today (in the rendering of translate/k_group2.py): neither can raise,
+   merge conserves the total duration, the chunks' sub-events concatenate to the
+   key-bearing prefix and the chunk durations add up to its total. *)
+Theorem gen_merge_total : forall is_list events keys,
+  exists out, gen_merge_events_by_keys is_list events keys = Ok out /\
+              sumZ (map gdur out) = sumZ (map gdur events).
+Proof.
+  intros is_list events keys. exists (merge_events_by_keys events keys).
+  split; [apply bridge_merge_events_by_keys | apply merge_total].
+Qed.
+Print Assumptions gen_merge_total.
+
+Theorem gen_chunk_partition : forall is_list sub_key events key pulse,
+  key <> sub_key ->
+  exists cs, gen_chunk_events_by_key is_list sub_key events key pulse = Ok (map (chunk_event key sub_key) cs) /\
+             concat (map csub cs) = key_prefix key events /\
+             Forall (chunk_ok key) cs /\
+             sumZ (map cdur cs) = sumZ (map gdur (key_prefix key events)).
+Proof.
+  intros is_list sub_key events key pulse Hk. exists (chunk_events_by_key events key pulse).
+  destruct (chunk_partition events key pulse) as [Hc Hf].
+  split; [apply bridge_chunk_events_by_key; exact Hk|].
+  split; [exact Hc|]. split; [exact Hf | apply chunk_total].
+Qed.
+Print Assumptions gen_chunk_partition.
 
 (* The regenerated text runs: two events whose value under key 1 is a list (label 7), one
    without key 2; list-ness of the value does not matter after tuple(). *)
